@@ -162,8 +162,11 @@ func (p *redisProc) StopListen() error {
 }
 
 func (p *redisProc) Stop() error {
-	p.l.Stop()
+	// Stop the upstream first: the sessions are waiting for their pending
+	// requests, which only finish once the upstream has failed them when a
+	// backend does not answer.
 	p.u.Stop()
+	p.l.Stop()
 	p.wg.Wait()
 	return nil
 }
